@@ -29,6 +29,16 @@ TABLE = [
      "are compared with a list model after every step (entries, span, validate()); every order type of one inserted interval "
      "against <=3 (thorough <=4) existing intervals is enumerated.",
      _NOTE, "DESIGN.md section 3 C11"),
+    ("C09", "Hypothesis generated tiers/textgrids x offsets/pairs vs exact-rational shift-and-clip model; stdout capture; +x/-x round trip",
+     "Random dyadic/decimal tiers (incl. empty) x offsets chosen to clip none/some/all entries x 3 reporting modes, and pairs of "
+     "tiers/textgrids with equal, overlapping and disjoint name sets, are compared with a model of the statement (entries, "
+     "span, reporting behaviour, resulting tier set).",
+     _NOTE, "DESIGN.md section 3 C09"),
+    ("C12", "exhaustive breadth-first exploration of tier-map operation sequences vs ordered-list model; differential tier-wise check on generated textgrids",
+     "Every sequence of addTier/removeTier/renameTier/replaceTier over 4 names up to depth 5 (thorough 6; memoised on the model "
+     "state) is replayed and compared with a list model after every step; random histories check that the span only widens; "
+     "textgrid-level edits are compared with the per-tier operations and validate().",
+     _NOTE, "DESIGN.md section 3 C12"),
 ]
 
 PENDING = {}
